@@ -95,3 +95,13 @@ Definition head_renewal (base sp fs ext : N) : res N :=
   do a <- cmul64 sp fs; do b <- cmul64 a ext; cadd base b.
 Lemma head_renewal_refuted : head_renewal 0 34359738368 max64' max64' = Panic.
 Proof. vm_compute. reflexivity. Qed.
+
+(** * RPCExecuteProgramRequest decoding (core): `make([]Instruction, d.ReadUint64())` with a
+   renter-chosen count that nothing bounds.  Beyond the runtime's maximal allocation
+   (2^48 bytes on 64-bit platforms; an interface value takes 16) makeslice panics; below
+   it, counts such as 2^40 end in a fatal out-of-memory error on any real machine. *)
+Definition go_max_alloc : N := 281474976710656.
+Definition head_decode_program (declared : N) : res unit :=
+  if go_max_alloc <? declared * 16 then Panic else Ok tt.
+Lemma head_decode_program_refuted : head_decode_program 4611686018427387904 = Panic.
+Proof. vm_compute. reflexivity. Qed.
